@@ -190,7 +190,7 @@ def run_encoders(ck):
     known = ck.known_findings()
     spliced = [c for c in ok_cases if c["kind"] == "series" and c["id"] in unread_s and c["gorows"].startswith("skip:stored")]
     if spliced and "series-splices-stored-labels" in known:
-        w = min(spliced, key=case_size)
+        w = min(spliced, key=lambda c: (c["id"] < 1000000, case_size(c)))     # the corpus witness first
         ck.report_known("series-splices-stored-labels", "stored labels %r -> body %r" % (
             [unhex(it).decode("latin1") for it in w["items"]][:3], unhex(w["out"]).decode("latin1")[:120]))
 
